@@ -436,6 +436,9 @@ fn solve_generic_multi(
         for it in 1..=iter {
             #[cfg(feature = "verif")]
             crate::verif::begin_pass(it, 0);
+            // NOTE the frontier and its cached payoffs are only valid for one iteration
+            work.clear();
+            payoffs.clear();
             // compute threadding threshold
             let [player_one, player_two] = &mut player_infosets;
             thread_threshold(
